@@ -46,6 +46,12 @@ pub fn probe_raise(args: &[P]) -> FFIReturnValue {
     FFIReturnValue::FFIError(format!("probe raised <{}>", describe(args)))
 }
 
+/// A look-alike of a symbol that does not exist: `probe_under` is NOT exported, `_probe_under` is.
+#[no_mangle]
+pub fn _probe_under(args: &[P]) -> FFIReturnValue {
+    FFIReturnValue::Value(P::Str(format!("look-alike called {}", describe(args))))
+}
+
 /// Raises a message of several lines; every line must reach the report.
 #[no_mangle]
 pub fn probe_raise_multi(args: &[P]) -> FFIReturnValue {
